@@ -14,6 +14,7 @@ import (
 	"regexp"
 	"sort"
 	"strings"
+	"sync"
 	"time"
 
 	"go.mongodb.org/mongo-driver/mongo"
@@ -136,6 +137,46 @@ func c05Calls() map[string]c05Call {
 		})
 		return sess.CommitTransaction(w.Ctx)
 	})
+	// a session whose explicit commit may fail is used again afterwards: what it then acknowledges must be visible
+	add("txnkeep", func(w *world.World) error {
+		sess, err := w.Client.StartSession()
+		if err != nil {
+			return err
+		}
+		c05Sessions.Store(w, sess)
+		if err := sess.StartTransaction(); err != nil {
+			return err
+		}
+		_ = lungo.WithSession(w.Ctx, sess, func(sc lungo.ISessionContext) error {
+			_, _ = w.C("d", "c").InsertOne(sc, bD("_id", "kept-txn"))
+			return nil
+		})
+		return sess.CommitTransaction(w.Ctx)
+	})
+	add("sesswrite", func(w *world.World) error {
+		v, ok := c05Sessions.Load(w)
+		if !ok {
+			return fmt.Errorf("harness: no session")
+		}
+		sess := v.(lungo.ISession)
+		defer sess.EndSession(w.Ctx)
+		var werr error
+		_ = lungo.WithSession(w.Ctx, sess, func(sc lungo.ISessionContext) error {
+			_, werr = w.C("d", "c").InsertOne(sc, bD("_id", "after-commit"))
+			return nil
+		})
+		if werr != nil {
+			return werr
+		}
+		n, err := w.C("d", "c").CountDocuments(w.Ctx, bD("_id", "after-commit"))
+		if err != nil {
+			return err
+		}
+		if n != 1 {
+			return fmt.Errorf("lost-acknowledged-write: a write acknowledged through the session after its commit is not visible to other clients")
+		}
+		return nil
+	})
 	add("wtxn", func(w *world.World) error {
 		sess, err := w.Client.StartSession()
 		if err != nil {
@@ -163,6 +204,9 @@ type c05Trace struct {
 	failMode  string
 	noops     int
 }
+
+// c05Sessions keeps the session of a history between two of its calls.
+var c05Sessions sync.Map
 
 // c05Retention makes c05Run open the engine with a retention that trims aged change-log events at every commit.
 var c05Retention bool
@@ -216,6 +260,11 @@ func c05Run(img memfs.Image, calls []string, failAt int, failMode string) *c05Tr
 		err := all[cn].do(w)
 		cancel()
 		w.Ctx = bgCtx
+		if err != nil && strings.HasPrefix(err.Error(), "lost-acknowledged-write") {
+			tr.problems = append(tr.problems, err.Error())
+			tr.callErrs = append(tr.callErrs, err)
+			continue
+		}
 		if err != nil && (errors.Is(err, context.DeadlineExceeded) || strings.Contains(err.Error(), "token acquisition timeout")) {
 			tr.problems = append(tr.problems, fmt.Sprintf("later-commit-blocked: %s could not obtain the writer slot (%v): an earlier failed commit did not release it", cn, err))
 			tr.callErrs = append(tr.callErrs, err)
@@ -354,7 +403,7 @@ func init() {
 			{"ins1", "ins2big", "del2", "upd1"},
 			{"ins1", "idx", "insdotted", "dropc"},
 		}
-		histories = append(histories, []string{"ins1", "txn", "upd1", "wtxn"})
+		histories = append(histories, []string{"ins1", "txn", "upd1", "wtxn"}, []string{"ins1", "txnkeep", "sesswrite", "upd1"})
 		if !c.Quick() {
 			histories = append(histories, []string{"ins2big", "ins1", "upd1", "del2", "ins3other", "idx"})
 		}
